@@ -31,6 +31,7 @@ VARIANTS = {
     # production arithmetic (no workspace redzones), asserts on
     'plain':  ('clang', ['-O2', '-g'] + COMMON_DEFS),
     'tsan':   ('clang', ['-O1', '-g', '-fsanitize=thread'] + COMMON_DEFS),
+    'tsanjm': ('clang', ['-O1', '-g', '-fsanitize=thread'] + COMMON_DEFS + ['-DZSTDMT_JOBSIZE_MIN=65536']),
     # overflow correction forced early and often (knob already in the tree)
     'wocf':   ('clang', ['-O1', '-g'] + SAN + COMMON_DEFS + ['-DZSTD_WINDOW_OVERFLOW_CORRECT_FREQUENTLY=1']),
     # deterministic scheduler behind the pthread names
